@@ -17,6 +17,7 @@ type Env struct {
 	st      *State
 	old     *State
 	lookup  func(name string) (CVal, bool)
+	lookupAddr func(name string) (CVal, bool) // addr(name): the cell of an address-taken local variable
 	fr      *frame
 	bound   map[string]CVal
 	inOld   bool
@@ -371,13 +372,13 @@ func (env *Env) binary(x *EBin) (CVal, error) {
 		if l.T.Sort == SString {
 			switch x.Op {
 			case "<":
-				return b("(str.< " + l.T.S + " " + r.T.S + ")")
+				return b(env.fc.strLess(l.T.S, r.T.S))
 			case "<=":
-				return b("(str.<= " + l.T.S + " " + r.T.S + ")")
+				return b(not(env.fc.strLess(r.T.S, l.T.S)))
 			case ">":
-				return b("(str.< " + r.T.S + " " + l.T.S + ")")
+				return b(env.fc.strLess(r.T.S, l.T.S))
 			default:
-				return b("(str.<= " + r.T.S + " " + l.T.S + ")")
+				return b(not(env.fc.strLess(l.T.S, r.T.S)))
 			}
 		}
 		if l.T.Sort != SInt || r.T.Sort != SInt {
@@ -419,6 +420,9 @@ func (env *Env) fieldSel(base CVal, name string) (CVal, error) {
 			if f.Name() == name {
 				srt := fc.e.sortOf(f.Type())
 				a := fc.heapGet(env.state(), fieldArrName(stT, name), arr(SInt, srt))
+				if len(fc.e.specs.FieldInvs) > 0 && !strings.Contains(base.T.S, "q$") {
+					fc.assumeFieldInv(env.state(), base.T, stT, name)
+				}
 				reg := ""
 				if isMapType(f.Type()) {
 					reg = fc.e.regionOfField(stT, f)
@@ -790,6 +794,13 @@ func (env *Env) call(x *ECall) (CVal, error) {
 			rt = res.At(resIdx).Type()
 		}
 		return CVal{t, rt}, nil
+	case "addr": // addr(v): pointer to the cell of the (captured / address-taken) local variable v
+		if id, ok := x.Args[0].(*EIdent); ok && env.lookupAddr != nil {
+			if v, ok := env.lookupAddr(id.Name); ok {
+				return v, nil
+			}
+		}
+		return CVal{}, fmt.Errorf("addr(%s): not an address-taken local variable visible here", x.Args[0])
 	case "perm": // perm(a, b): slice b is a permutation of slice a
 		args, err := evalArgs()
 		if err != nil {
